@@ -8,7 +8,7 @@
 From Coq Require Import ZArith List Bool.
 From Coq.Strings Require Import Byte String.
 From EsVerif.Common Require Import Base Bytes.
-From EsVerif.C01 Require Import Framing FramingProofs Model Spec Proofs Witness.
+From EsVerif.C01 Require Import Framing FramingProofs Model Spec Layout LayoutProofs Proofs Witness.
 Import ListNotations.
 Open Scope Z_scope.
 Open Scope list_scope.
@@ -96,6 +96,57 @@ Theorem C01_sfile_data_region :
       /\ skipn off f = bin_write rows
       /\ recfile_read f (Z.of_nat off) (rowsize dt) nrows = Ok rows.
 Proof. exact sfile_data_region. Qed.
+
+(* ---- "any structured array": the memory layout of the array handed to the writer (Layout.v).
+
+   Recfile.write (after fixes/C01/0002: numpy.ascontiguousarray first) leaves exactly the rows of
+   the table, in order, for EVERY layout: strided slices, reversed views, transposed or sliced
+   n-d arrays, 0-d arrays — any offsets/strides that stay inside the buffer. *)
+Theorem C01_write_any_layout : forall v, in_bounds v = true ->
+  recfile_write_view v = bin_write (view_rows v).
+Proof. exact write_any_layout. Qed.
+
+(* The writer of the unchanged tree (one fwrite of size*itemsize bytes from the address of
+   element 0) does so for C-contiguous arrays ... *)
+Theorem C01_unrepaired_write_contiguous : forall v, kf_noncontiguous_write v = false -> in_bounds v = true ->
+  0 <= v_start v -> v_start v + Z.of_nat (view_size v * v_item v) <= Z.of_nat (length (v_buf v)) ->
+  recfile_write_view_v0 v = bin_write (view_rows v).
+Proof. exact write_v0_outside_known. Qed.
+
+(* ... and not for others: data[::2] and a transposed 2x2 table are witnesses (the repaired
+   writer is right on the same witnesses). *)
+Theorem C01_unrepaired_write_refuted :
+  exists v, in_bounds v = true /\ view_rows v <> []
+            /\ recfile_write_view_v0 v <> bin_write (view_rows v)
+            /\ recfile_write_view v = bin_write (view_rows v).
+Proof. exact unrepaired_write_refuted. Qed.
+
+Theorem C01_unrepaired_write_refuted_transposed :
+  exists v, in_bounds v = true /\ view_rows v <> []
+            /\ recfile_write_view_v0 v <> bin_write (view_rows v)
+            /\ recfile_write_view v = bin_write (view_rows v).
+Proof. exact unrepaired_write_refuted_transposed. Qed.
+
+(* The round trip of C01_roundtrip for the array as numpy holds it. *)
+Theorem C01_roundtrip_any_layout :
+  forall (pyval : Type) (pyeq : pyval -> pyval -> Prop)
+         (v_str : list byte -> pyval) (v_int : Z -> pyval) (v_descr : dtype -> pyval)
+         (np_dtype : pyval -> option dtype) (pformat : hdict pyval -> list byte)
+         (pyeval : list byte -> option (hdict pyval))
+         (hdr : hdict pyval) (dt : dtype) (v : ndview),
+    H_pf pyval pyeq pformat pyeval np_dtype (make_header pyval v_str v_descr hdr dt) dt ->
+    user_hdr_ok pyval hdr ->
+    in_bounds v = true -> (1 <= view_size v)%nat -> Z.of_nat (v_item v) = rowsize dt -> 0 < rowsize dt ->
+    exists out, sfile_read pyval v_str v_int np_dtype pyeval
+                  (sfile_write_view pyval v_str v_descr pformat hdr dt v) = Ok out
+                /\ roundtrip_ok pyval pyeq v_int np_dtype hdr dt (view_rows v) out.
+Proof. exact roundtrip_any_layout. Qed.
+
+Theorem C01_recfile_roundtrip_any_layout : forall dt v nrows,
+  in_bounds v = true -> (1 <= view_size v)%nat -> Z.of_nat (v_item v) = rowsize dt -> 0 < rowsize dt ->
+  (nrows = None \/ (exists m, nrows = Some m /\ m < 0) \/ nrows = Some (Z.of_nat (view_size v))) ->
+  recfile_read0 (recfile_write_view v) dt nrows = Ok (view_rows v).
+Proof. exact recfile_roundtrip_any_layout. Qed.
 
 (* What the case files evaluate ([sfile_read_c]) is the model's read with eval / numpy.dtype
    resolved. *)
